@@ -57,10 +57,7 @@ pub(crate) use log_harness;
 
 // --- counting ----------------------------------------------------------------------------
 
-fn count_body<A: SymGen, const N: usize, const W: usize>() {
-    let seqs: [[A::Symbol; W]; N] = core::array::from_fn(|_| any_seq::<A, W>());
-    let enc: Vec<EncodedSequence<A>> = seqs.iter().map(|s| EncodedSequence::new(s.to_vec())).collect();
-    let cm = CountMatrix::<A>::from_sequences(enc.iter()).expect("equal lengths must be accepted");
+fn count_check<A: SymGen, const N: usize, const W: usize>(cm: &CountMatrix<A>, seqs: &[[A::Symbol; W]; N]) {
     assert!(cm.matrix().rows() == W);
     assert!(cm.sequence_count() == N);
     let probe = A::any_sym();
@@ -74,7 +71,25 @@ fn count_body<A: SymGen, const N: usize, const W: usize>() {
         assert!(cm.matrix()[i][probe.as_index()] == n, "count differs from the number of occurrences");
     }
     crate::witness!(cm.matrix()[W - 1][probe.as_index()] == N as u32, "all sequences agree at the last position");
-    core::mem::forget(enc);
+}
+
+// (sequences are plain locals: lengths read back through nested containers stop
+// being constants for CBMC and the row count of the matrix would become symbolic)
+fn count_body3<A: SymGen, const W: usize>() {
+    let seqs: [[A::Symbol; W]; 3] = [any_seq::<A, W>(), any_seq::<A, W>(), any_seq::<A, W>()];
+    let e0 = EncodedSequence::<A>::new(seqs[0].to_vec());
+    let e1 = EncodedSequence::<A>::new(seqs[1].to_vec());
+    let e2 = EncodedSequence::<A>::new(seqs[2].to_vec());
+    let cm = CountMatrix::<A>::from_sequences([&e0, &e1, &e2]).expect("equal lengths must be accepted");
+    count_check::<A, 3, W>(&cm, &seqs);
+}
+
+fn count_body2<A: SymGen, const W: usize>() {
+    let seqs: [[A::Symbol; W]; 2] = [any_seq::<A, W>(), any_seq::<A, W>()];
+    let e0 = EncodedSequence::<A>::new(seqs[0].to_vec());
+    let e1 = EncodedSequence::<A>::new(seqs[1].to_vec());
+    let cm = CountMatrix::<A>::from_sequences([&e0, &e1]).expect("equal lengths must be accepted");
+    count_check::<A, 2, W>(&cm, &seqs);
 }
 
 fn unequal_body() {
@@ -127,10 +142,12 @@ fn freq_body<const M: usize>() {
     let cm = CountMatrix::<Dna>::new(d).unwrap();
     let fm = cm.to_freq(Pseudocounts::<Dna>::from(GenericArray::from(p)));
     for i in 0..M {
-        let mut total = 0.0f32;
-        for j in 0..5 {
-            total += c[i][j] as f32 + p[j];
-        }
+        // Row total with the same float expression as the library (`iter().sum()` of
+        // count + pseudocount). On this lattice every summation order gives the same
+        // exact value, but proving that is beyond the solver: a legal re-association
+        // in the library would make this instance time out (inconclusive), never fail.
+        let terms: [f32; 5] = core::array::from_fn(|j| c[i][j] as f32 + p[j]);
+        let total: f32 = terms.iter().sum();
         nd::assume(total > 0.0);
         let mut sum = 0.0f32;
         for j in 0..5 {
@@ -143,10 +160,8 @@ fn freq_body<const M: usize>() {
     // scalar pseudocount: applied to every symbol but the wildcard
     let q = (nd::u8_in(0, 64) as f32) / 16.0;
     let fq = cm.to_freq(q);
-    let mut total = 0.0f32;
-    for j in 0..5 {
-        total += c[0][j] as f32 + if j < 4 { q } else { 0.0 };
-    }
+    let terms: [f32; 5] = core::array::from_fn(|j| c[0][j] as f32 + if j < 4 { q } else { 0.0 });
+    let total: f32 = terms.iter().sum();
     nd::assume(total > 0.0);
     assert!(fq.matrix()[0][4] == (c[0][4] as f32) / total, "scalar pseudocount leaked into the wildcard");
     assert!(fq.matrix()[0][1] == (c[0][1] as f32 + q) / total);
@@ -166,23 +181,42 @@ fn any_freq<const M: usize>() -> (DenseMatrix<f32, U5>, [[f32; 5]; M]) {
     (d, sh)
 }
 
-fn weight_score_body<const M: usize>() {
+/// `FrequencyMatrix::new` accepts exactly the rows within 0.01 of one.
+fn freq_validation_body<const M: usize>() {
     let (d, f) = any_freq::<M>();
-    let r = FrequencyMatrix::<Dna>::new(d.clone());
-    // validation: every row within 0.01 of one (lattice sums are exact)
+    let r = FrequencyMatrix::<Dna>::new(d);
     let mut valid = true;
     for i in 0..M {
+        // lattice sums are exact, so the summation order does not matter
         let s = f[i][0] + f[i][1] + f[i][2] + f[i][3] + f[i][4];
         if !((s - 1.0).abs() < 0.01) {
             valid = false;
         }
     }
     assert!(r.is_ok() == valid, "frequency validation disagrees with its definition");
-    if !valid {
-        crate::witness!(true, "opt: invalid frequencies");
-        return;
+    crate::witness!(valid && f[0][4] > 0.0, "valid frequencies with a non-zero wildcard");
+    core::mem::forget(r);
+}
+
+/// A frequency matrix obtained through the real `to_freq` (no `Result` with a
+/// data-dependent discriminant in between: CBMC would lose the row count).
+pub fn freq_from_counts<const M: usize>() -> (FrequencyMatrix<Dna>, [[f32; 5]; M]) {
+    let (d, _) = any_counts::<M>();
+    let cm = CountMatrix::<Dna>::new(d).unwrap();
+    let q = (nd::u8_in(0, 64) as f32) / 16.0;
+    let fm = cm.to_freq(q);
+    let mut f = [[0f32; 5]; M];
+    for i in 0..M {
+        for j in 0..5 {
+            f[i][j] = fm.matrix()[i][j];
+        }
+        nd::assume(!f[i][0].is_nan());
     }
-    let fm = r.unwrap();
+    (fm, f)
+}
+
+fn weight_score_body<const M: usize>() {
+    let (fm, f) = freq_from_counts::<M>();
     let (bg, b) = any_background();
     let wm = fm.to_weight(bg.clone());
     let two_step = wm.to_scoring();
@@ -192,31 +226,32 @@ fn weight_score_body<const M: usize>() {
             let w = if b[j] == 0.0 { 0.0 } else { f[i][j] / b[j] };
             assert!(wm.matrix()[i][j] == w, "weight is not frequency / background");
             let s = if b[j] == 0.0 { f32::NEG_INFINITY } else { log2_model(f[i][j] / b[j]) };
-            assert!(one_step.matrix()[i][j] == s || (s.is_nan()), "score is not log2(frequency / background)");
+            assert!(one_step.matrix()[i][j] == s, "score is not log2(frequency / background)");
             assert!(two_step.matrix()[i][j] == one_step.matrix()[i][j], "one-step and two-step routes differ");
         }
     }
     // other bases
     let s10 = wm.to_scoring_with_base(10.0);
     let s3 = wm.to_scoring_with_base(3.0);
-    let j = nd::usize_in(0, 4);
-    let w = wm.matrix()[0][j];
-    assert!(s10.matrix()[0][j] == log10_model(w), "base 10 does not use log10 of the weight");
-    assert!(s3.matrix()[0][j] == ln_model(w) / ln_model(3.0), "base b does not use ln(weight)/ln(b)");
+    for j in 0..5 {
+        let w = wm.matrix()[0][j];
+        assert!(s10.matrix()[0][j] == log10_model(w), "base 10 does not use log10 of the weight");
+        assert!(s3.matrix()[0][j] == ln_model(w) / ln_model(3.0), "base b does not use ln(weight)/ln(b)");
+    }
     crate::witness!(b[4] == 0.0 && b[0] > 0.0 && f[0][0] > 0.0, "zero-frequency wildcard background");
 }
 
 fn rescale_body() {
-    let (d, f) = any_freq::<1>();
-    let r = FrequencyMatrix::<Dna>::new(d);
-    nd::assume(r.is_ok());
+    let (fm, f) = freq_from_counts::<1>();
     let (bg1, b1) = any_background();
     let (bg2, b2) = any_background();
     nd::assume(b1[0] > 0.0 && b1[1] > 0.0 && b1[2] > 0.0 && b1[3] > 0.0);
     nd::assume(b2[0] > 0.0 && b2[1] > 0.0 && b2[2] > 0.0 && b2[3] > 0.0);
-    let wm = r.unwrap().to_weight(bg1);
+    let wm = fm.to_weight(bg1);
     let w2 = wm.rescale(bg2.clone());
-    assert!(w2.background().frequencies() == bg2.frequencies());
+    for j in 0..5 {
+        assert!(w2.background().frequencies()[j] == b2[j]);
+    }
     for j in 0..4 {
         let w1 = f[0][j] / b1[j];
         if b1 == b2 {
@@ -234,9 +269,15 @@ fn minmax_body<const M: usize>() {
     let mut d = DenseMatrix::<f32, U5>::new(M);
     for i in 0..M {
         for j in 0..5 {
-            let x = nd::f32_();
-            nd::assume(x.is_finite());
-            d[i][j] = x;
+            // k/8 for |k| <= 127, or a huge magnitude (sums overflow to +-inf): with
+            // arbitrary finite floats the solver has to prove monotonicity of rounded
+            // addition and produced no verdict in 30 minutes
+            let k = nd::i8_();
+            d[i][j] = match k {
+                -128 => -3.0e38,
+                127 => 3.0e38,
+                _ => (k as f32) / 8.0,
+            };
         }
     }
     let pssm = ScoringMatrix::<Dna>::new(Background::uniform(), d);
@@ -286,46 +327,57 @@ fn background_counts_body() {
     let r = Background::<Dna>::from_counts(&GenericArray::from(c));
     assert!(r.is_ok() == (total > 0), "from_counts must reject exactly the all-zero counts");
     if let Ok(bg) = r {
-        let j = nd::usize_in(0, 4);
-        assert!(bg.frequencies()[j] == (c[j] as f32) / (total as f32));
+        for j in 0..5 {
+            assert!(bg.frequencies()[j] == (c[j] as f32) / (total as f32));
+        }
     }
-    // from_sequence: counts of a linear sequence, wildcard excluded on request
-    let seq = any_seq::<Dna, 4>();
-    let r2 = Background::<Dna>::from_sequence(&seq[..], false);
+    crate::witness!(total > 0 && c[4] > 0, "non-zero wildcard count");
+}
+
+/// from_sequence: counts of a linear sequence, wildcard excluded on request
+fn background_sequence_body() {
+    let seq = any_seq::<Dna, 3>();
+    let unknown = nd::bool_();
+    let r2 = Background::<Dna>::from_sequence(&seq[..], unknown);
     let mut n = [0usize; 5];
     for s in seq.iter() {
         n[s.as_index()] += 1;
     }
-    let known = n[0] + n[1] + n[2] + n[3];
-    assert!(r2.is_ok() == (known > 0));
+    let wild = if unknown { n[4] } else { 0 };
+    let denom = n[0] + n[1] + n[2] + n[3] + wild;
+    assert!(r2.is_ok() == (denom > 0));
     if let Ok(bg) = r2 {
-        assert!(bg.frequencies()[4] == 0.0);
-        assert!(bg.frequencies()[2] == (n[2] as f32) / (known as f32));
+        assert!(bg.frequencies()[4] == (wild as f32) / (denom as f32));
+        assert!(bg.frequencies()[2] == (n[2] as f32) / (denom as f32));
     }
-    crate::witness!(total > 0 && known == 3, "three known symbols");
+    crate::witness!(denom == 2 && !unknown, "two known symbols, wildcard excluded");
 }
 
 //@ C09 quick 900 CountMatrix::from_sequences, DNA, 3 sequences x 2 symbols, all symbolic
-harness!(none, 8, c09_count_dna_n3_w2, count_body::<Dna, 3, 2>());
+harness!(none, 8, c09_count_dna_n3_w2, count_body3::<Dna, 2>());
 //@ C09 quick 900 CountMatrix::from_sequences, protein, 2 sequences x 2 symbols
-harness!(none, 24, c09_count_protein_n2_w2, count_body::<Protein, 2, 2>());
+harness!(none, 24, c09_count_protein_n2_w2, count_body2::<Protein, 2>());
 //@ C09 quick 900 CountMatrix::from_sequences rejects unequal lengths, accepts the empty set
 harness!(none, 8, c09_count_unequal, unequal_body());
-//@ C09 quick 1800 to_freq: 2 rows, counts < 2^16, pseudocount vector k/16 and scalar pseudocount
+//@ C09 quick 3600 to_freq: 2 rows, counts < 2^16, pseudocount vector k/16 and scalar pseudocount
 harness!(none, 8, c09_freq_m2, freq_body::<2>());
-//@ C09 quick 2400 FrequencyMatrix::new validation + to_weight + to_scoring (one-step == two-step) + bases 10 and 3, 1 row, symbolic background
+//@ C09 quick 1800 FrequencyMatrix::new accepts exactly the rows within 0.01 of one (lattice k/64), 2 rows
+harness!(none, 8, c09_freq_validation_m2, freq_validation_body::<2>());
+//@ C09 quick 3600 to_weight + to_scoring (one-step == two-step) + bases 10 and 3, 1 row, symbolic counts / pseudocount / background
 log_harness!(8, c09_weight_score_m1, weight_score_body::<1>());
-//@ C09 quick 1800 WeightMatrix::rescale, symbolic old/new backgrounds
+//@ C09 quick 3600 WeightMatrix::rescale, symbolic old/new backgrounds
 log_harness!(8, c09_rescale, rescale_body());
-//@ C09 quick 1800 min_score <= score_position <= max_score, 2 rows, arbitrary finite f32 cells, wildcard-free window
+//@ C09 quick 3600 min_score <= score_position <= max_score, 2 rows, cells k/8 or +-3e38, wildcard-free window
 harness!(none, 8, c09_minmax_m2, minmax_body::<2>());
 //@ C09 quick 900 Background::new accepts exactly [0,1]-valued vectors summing to one (lattice k/64)
 harness!(none, 8, c09_background_new, background_new_body());
-//@ C09 quick 900 Background::from_counts / from_sequence
+//@ C09 quick 1800 Background::from_counts
 harness!(none, 8, c09_background_counts, background_counts_body());
-//@ C09 thorough 3600 weight/score conversions, 2 rows
+//@ C09 quick 1800 Background::from_sequence (3 symbolic symbols, wildcard counted or not)
+harness!(none, 8, c09_background_sequence, background_sequence_body());
+//@ C09 thorough 7200 weight/score conversions, 2 rows
 log_harness!(8, c09_weight_score_m2, weight_score_body::<2>());
 //@ C09 thorough 3600 min/max score bounds, 3 rows
 harness!(none, 8, c09_minmax_m3, minmax_body::<3>());
 //@ C09 thorough 3600 CountMatrix::from_sequences, DNA, 3 sequences x 3 symbols
-harness!(none, 8, c09_count_dna_n3_w3, count_body::<Dna, 3, 3>());
+harness!(none, 8, c09_count_dna_n3_w3, count_body3::<Dna, 3>());
